@@ -114,3 +114,133 @@ class SC__visit_compare(Contract):
 
     def post(self, e, ctx, result, old):
         return dict(ctx_frame(ctx, old.ctx), none=result is None, uses_bound=uses_bound(self, e, ctx.env))
+
+
+class SC__visit_tuple_expr(Contract):
+    target = 'fpy2.analysis.syntax_check:SyntaxCheckInstance._visit_tuple_expr'
+    params = {'self': 'SyntaxCheckInstance', 'e': 'TupleExpr', 'ctx': '_Ctx'}
+    overrides = {'e.elts': 'KeySeq[Expr]'}
+    returns = 'None'
+    properties = ['C15']
+    modifies = ['self.free_var_args']
+    may_raise = ['FPySyntaxError']
+    options = {'loop_modifies': {0: ['self.free_var_args']}}
+
+    def axioms(self, e):
+        return seq_fold_def(e, 'elts', e.elts, strict_of(self))
+
+    def inv0(self, e, ctx, done, old):
+        return dict(ctx_frame(ctx, old.ctx), prefix=prefix_bound(self, e, 'elts', done, ctx.env))
+
+    def post(self, e, ctx, result, old):
+        return dict(ctx_frame(ctx, old.ctx), none=result is None, uses_bound=uses_bound(self, e, ctx.env))
+
+
+class SC__visit_list_expr(Contract):
+    target = 'fpy2.analysis.syntax_check:SyntaxCheckInstance._visit_list_expr'
+    params = {'self': 'SyntaxCheckInstance', 'e': 'ListExpr', 'ctx': '_Ctx'}
+    overrides = {'e.elts': 'KeySeq[Expr]'}
+    returns = 'None'
+    properties = ['C15']
+    modifies = ['self.free_var_args']
+    may_raise = ['FPySyntaxError']
+    options = {'loop_modifies': {0: ['self.free_var_args']}}
+
+    def axioms(self, e):
+        return seq_fold_def(e, 'elts', e.elts, strict_of(self))
+
+    def inv0(self, e, ctx, done, old):
+        return dict(ctx_frame(ctx, old.ctx), prefix=prefix_bound(self, e, 'elts', done, ctx.env))
+
+    def post(self, e, ctx, result, old):
+        return dict(ctx_frame(ctx, old.ctx), none=result is None, uses_bound=uses_bound(self, e, ctx.env))
+
+
+class SC__visit_list_ref(Contract):
+    target = 'fpy2.analysis.syntax_check:SyntaxCheckInstance._visit_list_ref'
+    params = {'self': 'SyntaxCheckInstance', 'e': 'ListRef', 'ctx': '_Ctx'}
+    overrides = {'e.value': 'Key[Expr]', 'e.index': 'Key[Expr]'}
+    returns = 'None'
+    properties = ['C15']
+    modifies = ['self.free_var_args']
+    may_raise = ['FPySyntaxError']
+    options = {'call_counts': {'SyntaxCheckInstance._visit_expr': 2}}
+
+    def post(self, e, ctx, result, old):
+        return dict(ctx_frame(ctx, old.ctx), none=result is None, uses_bound=uses_bound(self, e, ctx.env))
+
+
+class SC__visit_list_slice(Contract):
+    target = 'fpy2.analysis.syntax_check:SyntaxCheckInstance._visit_list_slice'
+    params = {'self': 'SyntaxCheckInstance', 'e': 'ListSlice', 'ctx': '_Ctx'}
+    overrides = {'e.value': 'Key[Expr]', 'e.start': 'Key[Expr] | None', 'e.stop': 'Key[Expr] | None'}
+    returns = 'None'
+    properties = ['C15']
+    modifies = ['self.free_var_args']
+    may_raise = ['FPySyntaxError']
+
+    def post(self, e, ctx, result, old):
+        return dict(ctx_frame(ctx, old.ctx), none=result is None, uses_bound=uses_bound(self, e, ctx.env))
+
+
+class SC__visit_if_expr(Contract):
+    target = 'fpy2.analysis.syntax_check:SyntaxCheckInstance._visit_if_expr'
+    params = {'self': 'SyntaxCheckInstance', 'e': 'IfExpr', 'ctx': '_Ctx'}
+    overrides = {'e.cond': 'Key[Expr]', 'e.ift': 'Key[Expr]', 'e.iff': 'Key[Expr]'}
+    returns = 'None'
+    properties = ['C15']
+    modifies = ['self.free_var_args']
+    may_raise = ['FPySyntaxError']
+    options = {'call_counts': {'SyntaxCheckInstance._visit_expr': 3}}
+
+    def post(self, e, ctx, result, old):
+        return dict(ctx_frame(ctx, old.ctx), none=result is None, uses_bound=uses_bound(self, e, ctx.env))
+
+
+class SC__visit_attribute(Contract):
+    target = 'fpy2.analysis.syntax_check:SyntaxCheckInstance._visit_attribute'
+    params = {'self': 'SyntaxCheckInstance', 'e': 'Attribute', 'ctx': '_Ctx'}
+    overrides = {'e.value': 'Key[Expr]'}
+    returns = 'None'
+    properties = ['C15']
+    modifies = ['self.free_var_args']
+    may_raise = ['FPySyntaxError']
+    note = ('`e.value` is an opaque node of symbolic class (closed world of Expr classes): the function-position '
+            'test `isinstance(e.value, Var | Attribute)` is decided symbolically')
+
+    def post(self, e, ctx, result, old):
+        return dict(ctx_frame(ctx, old.ctx), none=result is None, uses_bound=uses_bound(self, e, ctx.env),
+                    # in function position (`a.b.c(..)`) the base is a variable or another attribute
+                    fn_position=implies(ctx.within_call, key_isa(e.value, 'Var') or key_isa(e.value, 'Attribute')))
+
+
+class SC__visit_call(Contract):
+    target = 'fpy2.analysis.syntax_check:SyntaxCheckInstance._visit_call'
+    params = {'self': 'SyntaxCheckInstance', 'e': 'Call', 'ctx': '_Ctx'}
+    overrides = {'e.func.name': 'Key[NamedId]', 'e.func.value': 'Key[Expr]', 'e.args': 'KeySeq[Expr]',
+                 'e.kwargs': 'PairSeq[Expr]'}
+    returns = 'None'
+    properties = ['C15']
+    modifies = ['self.free_var_args']
+    may_raise = ['FPySyntaxError']
+    options = {'loop_modifies': {0: ['self.free_var_args'], 1: ['self.free_var_args']}}
+    note = ('function position: a Var is a use unless unknown names are ignored, an Attribute is visited with '
+            'within_call=True in a FRESH context (the caller\'s ctx keeps within_call); positional and keyword '
+            'arguments (two loops, symbolic lengths; kwargs is a sequence of (name, expr) pairs)')
+
+    def axioms(self, e):
+        return dict(seq_fold_def(e, 'args', e.args, strict_of(self)), **seq_fold_def(e, 'kwargs', e.kwargs, strict_of(self)))
+
+    def inv0(self, e, ctx, done, old):
+        return dict(ctx_frame(ctx, old.ctx),
+                    func=forall_keys('NamedId', lambda k: implies(call_func_uses(e, k, strict_of(self)), bound(ctx.env, k))),
+                    prefix=prefix_bound(self, e, 'args', done, ctx.env))
+
+    def inv1(self, e, ctx, done, old):
+        return dict(ctx_frame(ctx, old.ctx),
+                    func=forall_keys('NamedId', lambda k: implies(call_func_uses(e, k, strict_of(self)), bound(ctx.env, k))),
+                    args=prefix_bound(self, e, 'args', seq_len(e.args), ctx.env),
+                    prefix=prefix_bound(self, e, 'kwargs', done, ctx.env))
+
+    def post(self, e, ctx, result, old):
+        return dict(ctx_frame(ctx, old.ctx), none=result is None, uses_bound=uses_bound(self, e, ctx.env))
